@@ -63,13 +63,20 @@ def gen_cases(ctx):
         cases.append(ddgen.mtf_case_pairs_1var(f"fp{cid}", op, bool(j % 2), lo, hi)); cid += 1
     for _ in range(200 if thorough else 20):
         cases.append(ddgen.mtf_case_history(f"fh{cid}", rng, threads=rng.choice([1, 1, 4]))); cid += 1
+    # TDD (package TDDx; theorems C01_tdd_*): three-valued functions re-derived through identities of the fixed
+    # tables with reorderings / collections in between, and random histories; == / Hash / Ord against the value
+    # tables over all 3^n ternary assignments, all handle pairs on every snapshot
+    for _ in range(100 if thorough else 12):
+        cases.append(ddgen.tdd_case_identities(f"ti{cid}", rng, nv=rng.randrange(1, 5), nident=rng.choice([24, 40, 64]))); cid += 1
+    for _ in range(300 if thorough else 30):
+        cases.append(ddgen.tdd_case_history(f"th{cid}", rng, length=rng.choice([30, 60, 120]), threads=rng.choice([1, 1, 4]))); cid += 1
     return cases
 
 
 def run(ctx):
     ddcommon.run_dd(
         ctx, ["C01"], gen_cases(ctx),
-        rule="per kind (bdd, bcdd, zbdd): all 256 three-variable functions built by minterm disjunction, order changed to 3 (quick) / 6 (thorough) permutations, each function re-derived by Shannon ite, == / Hash / Ord of all corresponding and sampled cross pairs, drops + gc in between; random histories on 3..6 variables (apply, clone/drop, gc, add_vars, set_var_order, 1/4 or 1/2/8 threads) with a snapshot after every op; on every snapshot all handle pairs are compared (edge equality vs table equality). non-trivial = case with >= 3 ops",
+        rule="per kind (bdd, bcdd, zbdd): all 256 three-variable functions built by minterm disjunction, order changed to 3 (quick) / 6 (thorough) permutations, each function re-derived by Shannon ite, == / Hash / Ord of all corresponding and sampled cross pairs, drops + gc in between; random histories on 3..6 variables (apply, clone/drop, gc, add_vars, set_var_order, 1/4 or 1/2/8 threads) with a snapshot after every op; on every snapshot all handle pairs are compared (edge equality vs table equality); tdd: 12 (thorough 100) identity cases on 1..4 variables (a pool of functions from variables, the constants f/u/t and random connectives; 24..64 functions derived twice through identities of the fixed tables - nand = not and, De Morgan, xor = not equiv, imp_strict(a,b) = not imp(b,a), contraposition, commutativity, ite(f,g,g) = g, ite(t,g,h) = g, double negation - EQ of the two results and of sampled cross pairs, reorderings and drops + gc in between) and 30 (thorough 300) random histories (constants, variables, not, 8 connectives, ite, cofactors, clone/drop, gc, add_vars, set_var_order, EQ, node_count, eval; value tables over all 3^n ternary assignments, also through the extracted td_vtable). non-trivial = case with >= 3 ops",
         allowed_axioms=ALLOWED_AXIOMS)
 
 
